@@ -30,10 +30,15 @@ pub fn rich_sdesc<R: Rng>(rng: &mut R, r: &PortableRegistry) -> SDesc {
     d.root = crate::settingsgen::pick_root(rng, r);
     let mut pool: Vec<String> = (0..30).map(|i| format!("::d{}::D{}", i % 4, i)).collect();
     pool.extend(["Debug", "Clone", "PartialEq", "Eq"].iter().map(|s| s.to_string()));
+    // names that are another name plus a digit (`::d1::..` / `::d12::..`, `::serde` / `::serde2`):
+    // their order depends on what follows the shorter name in the sort key
+    pool.extend(["::d1::Z", "::d12::A", "::d12::Z", "::serde::Serialize", "::serde2::Serialize", "::serde::ser2::X"].iter().map(|s| s.to_string()));
     pool.shuffle(rng);
     d.global_derives = pool[..rng.gen_range(8..=20)].to_vec();
     // several attributes share one attribute path (as #[serde(..)] / #[codec(..)] do in practice)
     let mut apool: Vec<String> = (0..12).map(|i| format!("#[a{}(x = {i})]", i % 3)).collect();
+    // attributes that differ only in blanks inside a literal, and names that are a name plus a digit
+    apool.extend(["#[note = \" generated\"]", "#[note = \"generated\"]", "#[note = \"gene rated\"]", "#[cfg1 = \"a\"]", "#[cfg12 = \"a\"]", "#[cfg1(b)]"].iter().map(|s| s.to_string()));
     apool.shuffle(rng);
     d.global_attrs = apool[..rng.gen_range(3..=8)].to_vec();
     let mut paths: Vec<String> = generated_paths(r).into_iter().map(|p| p.join("::")).collect();
